@@ -505,18 +505,29 @@ class Series(_Gap):
                 pass  # value of another kind can never be equal
         return self._boolres([z3.And(z3.Not(n), zor(v == x for x in vs)) for v, n in zip(self.vals, self.nulls)])
 
-    def map(self, fn):
-        out = []
+    def map(self, fn, na_action=None):
+        if na_action not in (None, "ignore"):
+            raise ValueError("na_action must either be 'ignore' or None")
+        out, onull = [], []
         for v, n, p in zip(self.vals, self.nulls, self.present):
             if not eng().branch(p):  # absent slot (e.g. dropped by ignore_na): the callback is never invoked for it
                 out.append(F)
+                onull.append(F)
                 continue
             if eng().branch(n):  # callback observes the null itself, exactly as pandas hands it over
+                if na_action == "ignore":  # ... unless nulls are propagated without calling the function
+                    out.append(T)  # (a missing value is truthy in pandas' reductions)
+                    onull.append(T)
+                    continue
                 r = fn(float("nan") if self.kind in ("int", "float") else None)
             else:
                 r = fn(wrap_cell(v, self.kind))
             out.append(lift_bool(r))
-        return self._boolres(out)
+            onull.append(F)
+        res = self._boolres(out)
+        if any(not z3.is_false(x) for x in onull):
+            res = res._new(nulls=onull)
+        return res
 
     # ------------------------------------------------------------ selection
     def __getitem__(self, key):
